@@ -54,7 +54,7 @@ def main():
               "Interlocking chains of three or more references at symbolic distances are outside (path count grows as 8^R per pass)",
               "termination: (1) on every explored path of the shape set and the gap family the fixed point is reached within the step budget; (2) certificate for all programs: a reference put into an ARBITRARY "
               "encoded length 1..8 (InstrLabel::update on the fresh object) before the real CodeGen constructor runs never ends shorter than it started, for every gap size - lengths only grow, are bounded by 8, "
-              "and a pass with stable lengths settles labels and then operands, so the iteration stops (R = 1 relative/absolute quick, R <= 2 thorough). A failing certificate is reported as INCONCLUSIVE, not as a violation: "
+              "and a pass with stable lengths settles labels and then operands, so the iteration stops (R = 1 relative and absolute quick, additionally R = 2 relative thorough). A failing certificate is reported as INCONCLUSIVE, not as a violation: "
               "a program on which hexasm really hangs needs interlocking references beyond the shape bound",
               "duplicate definitions of a label are outside (which definition is 'its label' is not defined)",
               "std::fstream replaced by a byte sink; rb-tree rebalancing replaced by BST insertion; error constructors keep their type and lose their text",
